@@ -104,7 +104,7 @@ def run_model(c, model, cases, hp):
         x.reads = [int(r) for r in x.d["reads"].split(",")] if x.d.get("reads", "-") != "-" else []
         x.mline = model_line(x.api, split_by_reads(x.data(), x.reads), x.hp or hp, x.hints)
         lines.append(x.mline)
-    rc, out, err = c.run_lines(model, lines, timeout=3000)
+    rc, out, err = c.run_lines(model, lines, timeout=3000) if lines else (0, [], "")
     if rc != 0 or len(out) != len(lines):
         c.broke("model driver", f"rc={rc} lines={len(out)}/{len(lines)} {err[-1500:]}")
     for x, o in zip(todo, out):
@@ -152,6 +152,77 @@ def view_judge_line(x, absreq=None, o=None):
                                    pairs_str(f["get"]), pairs_str(f["post"]), pairs_str(f["cookies"]), hxd(f["body"]),
                                    "1" if (r.script == b"/f" and r.body) else "0",
                                    kv["env"], kv["names"], kv["get"], kv["post"], kv["cookies"], kv["body"]]))
+
+
+FWD_PROBE = PROBE["scgi"]
+
+
+def gen_fwd_cases(rng, n):
+    """cases for the service configured with forwarding.rules (api `fwd`, SCGI): SCRIPT_NAME /fwd is relayed to an in-process
+    SCGI backend running the echo application, /dead to a port nobody listens on.
+    -> list of (Case, kind) with kind in wf | dead | absurd | truncated"""
+    out = []
+    ABSURD = [b"9000000000000000000", b"9223372036854775807", b"9223372036854775808", b"99999999999999999999", b"2147483648",
+              b"4294967296", b"4294967297", b"8193", b"1000000", b"-1", b"-9223372036854775808", b"-0", b"+5", b" 7", b"0x10", b"1e9"]
+    for i in range(n):
+        r = gen_absreq(rng)
+        r.script = b"/fwd"; r.keep = False
+        if r.post is not None and rng.random() < 0.5:
+            r.post = None; r.ctype = b"application/octet-stream"
+            r.body = bytes(rng.randrange(256) for _ in range(rng.choice([1, 100, 8191, 8192, 8193, 20000, 40000])))
+        q = query_string(r, rng); ck = cookie_header(r, rng)
+        pairs = cgi_pairs(r, q, ck, rng)
+        d = enc_scgi(pairs, r.body)
+        for segs in segmentations(rng, d, 1):
+            x = Case("fwd", "wt", segs, absreq=(r, q, ck), tag="fwd-wf")
+            out.append((x, "wf"))
+        # the same request for a backend that is down
+        pd = [(k, b"/dead" if k == b"SCRIPT_NAME" else v) for k, v in pairs]
+        out.append((Case("fwd", rng.choice(["wt", "hc", "rst"]), segmentations(rng, enc_scgi(pd, r.body), 1)[-1], tag="fwd-dead"), "dead"))
+        # absurd / negative / unparsable CONTENT_LENGTH on a forwarded URL, with no or little content behind it
+        cl = rng.choice(ABSURD)
+        pa = [(k, v) for k, v in pairs if k != b"CONTENT_LENGTH"]
+        pa.insert(rng.randrange(len(pa) + 1), (b"CONTENT_LENGTH", cl))
+        tail = rng.choice([b"", b"", b"x", rand_bytes(rng, 300, bytes(range(256))), rand_bytes(rng, 9000, bytes(range(256)))])
+        out.append((Case("fwd", rng.choice(["hc", "hc", "rst"]), segmentations(rng, enc_scgi(pa, tail), 1)[-1], tag="fwd-absurd-content-length"), "absurd"))
+        # the peer goes away in the middle of a forwarded body
+        if len(r.body) > 1:
+            k = len(d) - rng.randrange(1, len(r.body))
+            out.append((Case("fwd", rng.choice(["hc", "rst"]), cut(d[:k], random_cuts(rng, k, rng.choice([0, 1]))), tag="fwd-truncated"), "truncated"))
+    return out
+
+
+def run_fwd(c, hbin, cases):
+    """play forwarded cases; fills .out/.d/.impl; returns list of (case, stderr) that killed the harness"""
+    crashes, i = [], 0
+    prelude = [f"setprobe fwd hc {hx(FWD_PROBE)}", "probe fwd"]
+    while i < len(cases):
+        batch = cases[i:i + 300]
+        rc, out, err = c.run_lines(hbin, prelude + [x.line() for x in batch], timeout=3000)
+        got = out[2:]
+        for x, o in zip(batch, got):
+            x.out = o; x.d = parse_out_line(o)
+            if "calls" in x.d:
+                x.impl, _ = impl_canon("fwd", x.d)
+        if len(got) < len(batch):
+            bad = batch[len(got)]
+            bad.out = "<harness died>"; bad.d = None
+            crashes.append((bad, err[-3500:]))
+            i += len(got) + 1
+        else:
+            i += len(batch)
+    return crashes
+
+
+def fwd_judge_line(x, kind):
+    d = x.d
+    outs = x.impl.split(" | ")[0].split(" ; ") if x.impl else []
+    answered = len(outs) == 1 and (outs[0].startswith("app ") or outs[0].startswith("status "))
+    exc = d.get("exc", "-") != "-"
+    probe_ok = d.get("probe") == "ok"
+    closed = "C" in d.get("flags", "") and "T" not in d.get("flags", "")
+    b = lambda v: "1" if v else "0"
+    return f"J fwd {b(exc)} {b(probe_ok)} {b(closed)} {b(x.mode == 'rst')} {b(kind == 'wf')} {b(answered)}"
 
 
 def pick_diverse(bad, n):
